@@ -491,6 +491,9 @@ var directedTOCs = []struct {
 	{"reg-size-2^40", `{"version":1,"entries":[{"name":"f","type":"reg","size":1099511627776,"offset":1}]}`},
 	{"reg-negative-size", `{"version":1,"entries":[{"name":"f","type":"reg","size":-1,"offset":1}]}`},
 	{"reg-negative-chunksize", `{"version":1,"entries":[{"name":"f","type":"reg","size":10,"chunkSize":-5,"offset":1},{"name":"f","type":"chunk","chunkOffset":5,"chunkSize":-5,"offset":2}]}`},
+	{"zero-size-trailing-chunk", `{"version":1,"entries":[{"name":"f","type":"reg","size":10,"chunkSize":5,"offset":1},{"name":"f","type":"chunk","chunkOffset":10,"offset":2}]}`},
+	{"reg-chunkoffset-beyond", `{"version":1,"entries":[{"name":"f","type":"reg","size":10,"chunkOffset":100,"chunkSize":5,"offset":1}]}`},
+	{"chunk-negative-size", `{"version":1,"entries":[{"name":"f","type":"reg","size":10,"chunkSize":5,"offset":1},{"name":"f","type":"chunk","chunkOffset":5,"chunkSize":-5,"offset":2}]}`},
 	{"reg-minint", `{"version":1,"entries":[{"name":"f","type":"reg","size":-9223372036854775808,"chunkSize":-9223372036854775808,"offset":-9223372036854775808,"innerOffset":-9223372036854775808}]}`},
 	{"reg-maxint", `{"version":1,"entries":[{"name":"f","type":"reg","size":9223372036854775807,"chunkSize":9223372036854775807,"offset":9223372036854775807,"innerOffset":9223372036854775807}]}`},
 	{"names-empty-dot", `{"version":1,"entries":[{"name":"","type":"reg","size":1,"offset":1},{"name":".","type":"dir"},{"name":"..","type":"dir"},{"name":"/","type":"dir"},{"name":"//","type":"reg"},{"name":"../..","type":"symlink","linkName":"x"}]}`},
@@ -1029,7 +1032,7 @@ var tocOps = []tocOp{
 		if m == nil {
 			return false
 		}
-		m["linkName"] = strings.Repeat(rng.PickS("x", "../", "/", "a/"), rng.Pick(100, 5000, 70000))
+		m["linkName"] = strings.Repeat(rng.PickS("x", "../", "/", "a/"), rng.Pick(100, 2000, 8000))
 		return true
 	}},
 	{"innerOffset-streams", func(rng *prng.R, d *tocDoc) bool {
